@@ -391,7 +391,13 @@ pub fn process<I: BufRead, O: Write>(
                     _ => break,
                 }
             } else {
-                let mut s = remaining.split("//").next().unwrap().splitn(2, "/*");
+                // A // that comes after a /* is part of that comment
+                let code = match (remaining.find("//"), remaining.find("/*")) {
+                    (Some(slashes), Some(star)) if star < slashes => remaining,
+                    (Some(slashes), _) => &remaining[..slashes],
+                    _ => remaining,
+                };
+                let mut s = code.splitn(2, "/*");
                 // Is there a string start before that point ?
                 let s2 = s.next().unwrap();
                 if !s2.starts_with("#include") && !asm {
